@@ -28,7 +28,7 @@ VOther(kind) == [t |-> kind]
 
 IsNumLike(x) == x.t \in {"num", "float"}
 EmptyEnv == [base |-> {}, units |-> [u \in {} |-> VNone], prefixes |-> <<>>, ans |-> VNone, subst |-> {},
-             closed |-> TRUE]
+             closed |-> TRUE, textbook |-> FALSE]
 
 (* ---- name lookup as Registry::lookup does it (registry.rs:29-70) ---- *)
 IsPrefixSeq(p, s) == Len(p) <= Len(s) /\ SubSeq(s, 1, Len(p)) = p
@@ -143,6 +143,21 @@ DegreeNames(deg) ==
     [] deg = "delisle" -> <<W_delisle_absolute, W_zerodelisle>>
     [] deg = "newton" -> <<W_newton_absolute, W_zerocelsius>>
 
+\* the textbook affine maps to kelvin (property C10), independent of any definitions file:
+\*   C: x + 273.15   F: (x + 459.67) 5/9   Re: x 5/4 + 273.15   Ro: (x - 7.5) 40/21 + 273.15
+\*   De: 373.15 - x 2/3   N: x 100/33 + 273.15
+TextbookScale(deg) ==
+  CASE deg = "celsius" -> QFrac(1, 1) [] deg = "fahrenheit" -> QFrac(5, 9) [] deg = "reaumur" -> QFrac(5, 4)
+    [] deg = "romer" -> QFrac(40, 21) [] deg = "delisle" -> QFrac(-2, 3) [] deg = "newton" -> QFrac(100, 33)
+TextbookZero(deg) ==
+  CASE deg = "celsius" -> QFrac(27315, 100) [] deg = "fahrenheit" -> QFrac(45967, 180)
+    [] deg = "reaumur" -> QFrac(27315, 100) [] deg = "romer" -> QFrac(181205, 700)
+    [] deg = "delisle" -> QFrac(37315, 100) [] deg = "newton" -> QFrac(27315, 100)
+KelvinDim == DBase(W_K)
+
+DegreeScale(env, deg) == IF env.textbook THEN VNum(TextbookScale(deg), KelvinDim) ELSE CtxLookup(env, DegreeNames(deg)[1])
+DegreeZero(env, deg) == IF env.textbook THEN VNum(TextbookZero(deg), KelvinDim) ELSE CtxLookup(env, DegreeNames(deg)[2])
+
 IsDegree(op) == op \in {"celsius", "fahrenheit", "reaumur", "romer", "delisle", "newton"}
 
 BinValue(op, a, b) ==
@@ -230,9 +245,8 @@ Ev(e, env) ==
          ELSE \* a temperature scale operator
               IF ~IsNumLike(x) THEN VErr("generic")
               ELSE IF ~DIsEmpty(x.d) THEN VErr("generic")
-              ELSE LET nm == DegreeNames(e.op)
-                       scale == CtxLookup(env, nm[1])
-                       zero == CtxLookup(env, nm[2])
+              ELSE LET scale == DegreeScale(env, e.op)
+                       zero == DegreeZero(env, e.op)
                    IN IF scale.t # "num" \/ zero.t # "num" THEN VUnknown
                       ELSE NumAdd(NumMul(x, scale), zero, FALSE)
     [] e.k = "mul" -> EvMul(e.es, env, 1, VNum(QOne, DEmpty))
